@@ -3,27 +3,27 @@ harness generator, the trusted-base items specific to the property."""
 
 TRUSTED_COMMON = [
     "Lean 4.33 kernel; axioms allowed: propext, Classical.choice, Quot.sound (audited with #print axioms on every property theorem on every run)",
-    "translate/t2.py (Rust integer-function subset -> lean/Matreex/Gen/Core.lean) and, run from it, t3.py (swap kernels), t4.py (mutable iterators), t5.py (transpose), t6.py (overwrite), t7.py (PartialEq), t8.py (constructors, reshape), t9.py (elementwise operations), t10.py (products) -> lean/Matreex/Gen/*.lean, all regenerated from /repo/src on every run; anything outside a translator's statement language is reported as a broken obligation, never guessed",
+    "translate/t2.py (Rust integer-function subset -> lean/Matreex/Gen/Core.lean) and, run from it, t3.py (swap kernels), t4.py (mutable iterators), t5.py (transpose), t6.py (overwrite), t7.py (PartialEq), t8.py (constructors, reshape), t9.py (elementwise operations), t10.py (products), t11.py (checked indexing, element swap, swap dispatch), t12.py (row / column views, element iterators), t13.py (conversions), t14.py (resize, clear, map, apply, scalar operations) -> lean/Matreex/Gen/*.lean, all regenerated from /repo/src on every run; anything outside a translator's statement language is reported as a broken obligation, never guessed",
     "harness/ (Rust) and lean/Main.lean + lean/Driver/ (protocol printers on both sides); the Lean compiler/runtime for the driver only",
     "64-bit usize/isize; rustc and std semantics of the primitives named in DESIGN.md section 5 (modelled, validated by correspondence)",
 ]
 
 PROPS = {
     "C04": {
-        "module": "Matreex.Props.C04", "harness": "C04",
+        "module": "Matreex.Props.C04", "harness": "C04", "extra_modules": ["Matreex.Lemmas.BridgeT11"],
         "trusted": ["slice::get_unchecked modelled as UB outside the vector (Model/Mem.lean)",
                     "AsIndex accessors modelled as arbitrary state machines read once per component (Model/Index.lean); the call structure of get/get_mut is hand-modelled and tied by correspondence (call counts, returned addresses)"],
         "assumptions": ["Coh (shape product = element count) for the matrix indexed; established for every reachable matrix by C01"],
     },
     "C10": {
-        "module": "Matreex.Props.C10", "harness": "C10", "extra_modules": ["Matreex.Props.SpecLaws"],
+        "module": "Matreex.Props.C10", "harness": "C10", "extra_modules": ["Matreex.Props.SpecLaws", "Matreex.Lemmas.BridgeT11"],
         "technique": "Lean 4 theorems (window lemma for the contiguous swap, loop invariant for the strided swap, lift to the logical view for both orders) + correspondence on all shapes/index pairs/element sizes",
         "trusted": ["ptr::swap_nonoverlapping modelled with its precondition (ranges in the buffer, disjoint unless zero bytes); ptr::swap as UB outside the buffer (Model/Swap.lean, Model/Mem.lean)",
                     "the two vector-swap kernels are regenerated from src/swap.rs (T3) and proved equal to the model functions, faults included (swap_kernels_are_the_source); which kernel swap_rows / swap_cols call per order is a re-extracted table (T1); the element swap `swap(i, j)` is hand-modelled and tied by correspondence; for zero-sized elements with extents near usize::MAX only the outcome (Ok / IndexOutOfBounds / panic) is compared"],
         "assumptions": ["Coh and size <= usize::MAX (C01); index arguments are usize values"],
     },
     "C13": {
-        "module": "Matreex.Props.C13", "harness": "C13",
+        "module": "Matreex.Props.C13", "harness": "C13", "extra_modules": ["Matreex.Lemmas.BridgeT11"],
         "trusted": ["isize::unsigned_abs = Int.natAbs, `x as usize` = two's complement (Prelude)"],
         "assumptions": ["Coh for the matrix indexed (C01)"],
     },
@@ -55,7 +55,7 @@ PROPS["C14"] = {
 }
 
 PROPS["C09"] = {
-    "module": "Matreex.Props.C09", "harness": "C09", "extra_modules": ["Matreex.Lemmas.BridgeT8Props"],
+    "module": "Matreex.Props.C09", "harness": "C09", "extra_modules": ["Matreex.Lemmas.BridgeT8Props", "Matreex.Lemmas.BridgeT14"],
     "technique": "Lean 4 theorems over a state-returning model (post-state also on failure) for reshape/resize and every fallible in-place operation + T1 delegation table for += / -= + correspondence on exhaustive single calls and random histories",
     "trusted": ["Vec::resize_with / truncate as take/append on the memory-order sequence (effect-free Default here; unwinding behaviour is C02's subject)",
                 "the models of swap*/elementwise_assign are those of C10/C12"],
@@ -72,7 +72,7 @@ PROPS["C12"] = {
     "assumptions": ["Coh and size <= usize::MAX for both operands (C01)"],
 }
 PROPS["C18"] = {
-    "module": "Matreex.Props.C18", "harness": "C18",
+    "module": "Matreex.Props.C18", "harness": "C18", "extra_modules": ["Matreex.Lemmas.BridgeT14"],
     "technique": "table theorems (decide) over the scalar-operator impl table re-extracted from the macro sources on every run (T1), Lean theorems for the generic scalar_operation family, and execution of every one of the 1260 impls against the primitive operators",
     "trusted": ["translate/t1.py scalar_forms / neg_forms: regex extraction of macro arms, closure bodies normalised to `role op role` (derefs and clones erased), invocation lists",
                 "primitive arithmetic is not re-modelled in Lean: the harness evaluates both orientations with the primitive operator and compares bitwise"],
@@ -89,7 +89,7 @@ PROPS["C11"] = {
 }
 
 PROPS["C15"] = {
-    "module": "Matreex.Props.C15", "harness": "C15",
+    "module": "Matreex.Props.C15", "harness": "C15", "extra_modules": ["Matreex.Lemmas.BridgeT12"],
     "technique": "Lean 4 theorems: the regenerated Index::from_flattened pairs memory position k with the unique in-bounds coordinate whose checked access resolves to k (bijection), no division by zero; memory order = row-by-row / column-by-column; correspondence incl. parallel forms and large sizes",
     "trusted": ["slice iterators, enumerate, map and their DoubleEnded/ExactSize behaviour modelled as consumption of a list from either end",
                 "parallel variants: compared as collected sequences against the same model (rayon's indexed collect preserves order); schedule-independence is C16's subject"],
@@ -97,7 +97,7 @@ PROPS["C15"] = {
 }
 
 PROPS["C19"] = {
-    "module": "Matreex.Props.C19", "harness": "C19",
+    "module": "Matreex.Props.C19", "harness": "C19", "extra_modules": ["Matreex.Lemmas.BridgeT13"],
     "technique": "Lean 4 theorems by induction over the row lists (uniform => rows in order; any deviating row => LengthInconsistent / panic; with_initializer stores f(r,c) at (r,c)) using the regenerated size decision (T2) + macro-arm table (T1) + exhaustive correspondence over ragged inputs with destructor tokens",
     "trusted": ["Vec::extend / extend_from_slice / collect / vec! modelled as list append (vec![v; n]: n-1 clones then the original), FromIterator rows as lists",
                 "translate/t1.py macros: regex extraction of each macro arm's pattern and expansion",
@@ -114,7 +114,7 @@ PROPS["C03"] = {
     "assumptions": ["Coh (C01)"],
 }
 PROPS["C06"] = {
-    "module": "Matreex.Props.C06", "harness": "C06",
+    "module": "Matreex.Props.C06", "harness": "C06", "extra_modules": ["Matreex.Lemmas.BridgeT12"],
     "technique": "Lean 4 theorems for skip/step_by/take views (exact items and lengths, step_by(0) unreachable, IndexOutOfBounds exactly for invalid n) and agreement of the view positions with the positions the mutable machines of C03 hand out; correspondence over all families, shapes with a zero dimension, consumption patterns",
     "trusted": ["slice::Iter / IterMut with skip, step_by, take and their DoubleEnded/ExactSize behaviour modelled as list functions (Model/Iter.lean)",
                 "the mutable outer families are the C03 machines"],
@@ -154,7 +154,7 @@ PROPS["C01"] = {
 }
 
 PROPS["C02"] = {
-    "module": "Matreex.Props.C02", "harness": "C02",
+    "module": "Matreex.Props.C02", "harness": "C02", "extra_modules": ["Matreex.Lemmas.BridgeT14"],
     "level_text": "PARTIAL. Machine-checked Lean 4 theorems over a fault-schedule model (world = callback counter, matrix, drop log; an ARBITRARY schedule phi : Nat -> Bool of panicking callbacks): for resize (repaired order, incl. the unwinding guard), clear, every in-place per-element operation, overwrite and consuming operations the survivor is coherent for every schedule, truncate drops each removed element at most once and never a survivor; plus the machine-checked refutation of the pre-fix resize order. "
                   "Together with C01.run_inv_from any history may follow on the survivors. The model is tied to the implementation by single-fault enumeration (every operation kind, every k) comparing the survivor's shape and length for the modelled operations and evaluating the property's oracle (coherence, usability, no double drop) for all operations. "
                   "Not exhibited by the model: the unwinder itself (landing pads, drop flags, drop-and-replace), Vec's internal panic guards (SetLenOnDrop, in-place collect), rayon's panic propagation — these are trusted-base items validated by the injection runs; multi-fault schedules are proved in the model but only single faults are injected.",
